@@ -1,5 +1,6 @@
 SPECIFICATION Spec
 CONSTANTS
+  Mode = "seq"
   OptToks <- Opt_Quick
   MaxOpts = 3
   MinOpts = 0
